@@ -4,6 +4,7 @@ import CryoCat.Lemmas.C12_Round
 import CryoCat.Lemmas.C12_Op
 import CryoCat.Lemmas.C12_Tail
 import CryoCat.Lemmas.C12_Mono
+import CryoCat.Lemmas.C12_Ray
 import CryoCat.Lemmas.C12_DftComplex
 import CryoCat.Lemmas.C12_DftGrid
 /-! C12 — property theorems: the Fourier filters are the documented radial low/high/band-pass gains.
@@ -24,7 +25,13 @@ Reading guide (statement clause → theorem):
   `tail3`), `soft_margin_checked` (what the driver evaluates), `soft_tail_reach_zero` (`tail(√3·t) = 0`),
   `soft_edge_margins_partial`, `soft_edge_exact_beyond_reach`, `soft_edge_full_false_below_reach`
 * non-increasing along lines parallel to the axes → `soft_gain_mono_axis_x/y/z`, `soft_edge_monotone_axes_partial`,
-  `model_kernel_unimodal`
+  `model_kernel_unimodal`; along EVERY step away from the centre planes (diagonals included) and for the effective gain the
+  harness measures → `soft_gain_mono_step`, `soft_eff_gain_mono_step`, `soft_edge_monotone_rays_partial` (hypothesis: the ball
+  stays off the faces of the mask box on the moving axes, `monoAxisOk`; where it touches, monotonicity is NOT a theorem —
+  the unchanged code rises by ~4e-8 — and the harness only bounds the rise by the kernel tail)
+* band-pass gain range: `band_gain_range_nested` (equal widths, nested), `band_gain_bounds` ([-1,1] always),
+  `band_gain_negative_unequal_widths` (known finding C12-K1), `band_gain_negative_inverted`
+* signature defaults and whole-body anchors → `defaults_documented`, `signatures_documented`, `flow_documented`, `bodies_documented`
 * the transform inside the model → `dft_is_transform`, `dft1_inversion`, `dft_is_transform_complex`,
   `lowpass_grid`, `highpass_grid`, `bandpass_grid` (the driver's `filter` op executes these operators) -/
 namespace CryoCat.C12
@@ -37,22 +44,24 @@ theorem anchors_ok : anchorsOk = true := by decide
 /-- all four `spherical_mask` calls pass `gaussian_outwards=False` (the radius is not enlarged) -/
 theorem outwards_false : outwardsFlags = [false, false, false, false] := by decide
 
-/-- low/high-pass hand `(input_map.shape, radius, gaussian)` to the mask; band-pass builds the outer
-mask from `lp_radius, lp_gaussian` and the inner one from `hp_radius, hp_gaussian` -/
+/-- low/high-pass hand `(input_map.shape, radius, gaussian)` to the mask, the radius being
+`get_filter_radius(input_map.shape[0], …)` with the caller's keywords unchanged; band-pass builds the first
+(outer) mask from the `lp_` keywords and `lp_gaussian` and the second (inner) one from the `hp_` keywords and
+`hp_gaussian`. Local variables are inlined by the translator: the text does not depend on their names. -/
 theorem mask_arguments_documented :
-    maskArgs = [("radius", "gaussian"), ("radius", "gaussian"), ("lp_radius", "lp_gaussian"), ("hp_radius", "hp_gaussian")]
-    ∧ maskShapes = ["input_map.shape", "input_map.shape", "input_map.shape", "input_map.shape"] := by decide
+    maskArgs = [("get_filter_radius(read(input_map).shape[0],fourier_pixels=fourier_pixels,target_resolution=target_resolution,pixel_size=pixel_size)", "gaussian"), ("get_filter_radius(read(input_map).shape[0],fourier_pixels=fourier_pixels,target_resolution=target_resolution,pixel_size=pixel_size)", "gaussian"), ("get_filter_radius(read(input_map).shape[0],fourier_pixels=lp_fourier_pixels,target_resolution=lp_target_resolution,pixel_size=pixel_size)", "lp_gaussian"), ("get_filter_radius(read(input_map).shape[0],fourier_pixels=hp_fourier_pixels,target_resolution=hp_target_resolution,pixel_size=pixel_size)", "hp_gaussian")]
+    ∧ maskShapes = ["read(input_map).shape", "read(input_map).shape", "read(input_map).shape", "read(input_map).shape"] := by
+  constructor <;> rfl
 
 /-- the three filters are `np.real(ifftn(fftn(x) * ifftshift(M)))` with `M` = mask, `ones − mask`,
-`outer − inner` -/
+`first mask − second mask` (x = `read(input_map)`, a copy of the caller's array) -/
 theorem apply_expressions_documented :
-    applyExprs = ["np.real(fft.ifftn(fft.fftn(input_map)*fft.ifftshift(MASK)))",
-                  "np.real(fft.ifftn(fft.fftn(input_map)*fft.ifftshift(np.ones(input_map.shape)-MASK)))",
-                  "np.real(fft.ifftn(fft.fftn(input_map)*fft.ifftshift(outer_mask-inner_mask)))"] := by decide
+    applyExprs = ["np.real(fft.ifftn(fft.fftn(read(input_map))*fft.ifftshift(MASK1)))", "np.real(fft.ifftn(fft.fftn(read(input_map))*fft.ifftshift(np.ones(read(input_map).shape)-MASK1)))", "np.real(fft.ifftn(fft.fftn(read(input_map))*fft.ifftshift(MASK1-MASK2)))"] := by rfl
 
-/-- the box edge used for a resolution is `input_map.shape[0]` at all four sites -/
+/-- the box edge used for a resolution is `input_map.shape[0]` at all four sites — THE documented convention for
+non-cubic maps (the harness judges the resolution form against it) -/
 theorem box_edge_documented :
-    boxEdges = ["input_map.shape[0]", "input_map.shape[0]", "input_map.shape[0]", "input_map.shape[0]"] := by decide
+    boxEdges = ["read(input_map).shape[0]", "read(input_map).shape[0]", "read(input_map).shape[0]", "read(input_map).shape[0]"] := by decide
 
 theorem band_keywords_documented :
     bandRadiusArgs = [("lp_fourier_pixels", "lp_target_resolution"), ("hp_fourier_pixels", "hp_target_resolution")] := by decide
@@ -65,16 +74,49 @@ theorem filter_radius_branches_documented :
       ("target_resolution is not None and pixel_size is not None", "resolution2pixels(target_resolution,edge_size=edge_size,pixel_size=pixel_size)"),
       ("else", "raise ValueError")] := by decide
 
+/-- `spherical_mask`, statement by statement (locals renamed `L0, L1, …`): distance from `box_size // 2`, strict
+`> radius` set to 0, the rest to 1, the centre voxel to 1, then `postprocess` -/
 theorem sphere_documented :
     sphereOutsideStrict = true ∧
-    sphereStatements = ["x,y,z=np.mgrid[0:mask_size[0]:1,0:mask_size[1]:1,0:mask_size[2]:1]",
-      "mask=np.sqrt((x-center[0])**2+(y-center[1])**2+(z-center[2])**2)", "mask[mask>radius]=0", "mask[mask>0]=1",
-      "mask[center[0],center[1],center[2]]=1"] ∧
-    centreExpr = "box_size//2" := by decide
+    sphereStatements = ["0:mask_size=get_correct_format(mask_size)", "0:center=get_correct_format(center,reference_size=mask_size)", "0:ifradiusisNone:", "1:radius=np.amin(mask_size)//2", "0:radius=preprocess_params(radius,gaussian,gaussian_outwards)", "0:L0,L1,L2=np.mgrid[0:mask_size[0]:1,0:mask_size[1]:1,0:mask_size[2]:1]", "0:L3=np.sqrt((L0-center[0])**2+(L1-center[1])**2+(L2-center[2])**2)", "0:L3[L3>radius]=0", "0:L3[L3>0]=1", "0:L3[center[0],center[1],center[2]]=1", "0:L3=postprocess(L3,gaussian,np.asarray([0,0,0]),output_name)", "0:returnL3"] ∧
+    centreExpr = "FN0(reference_size)//2" := by
+  refine ⟨by decide, by rfl, by decide⟩
 
 theorem blur_documented :
     enlargeCond = "gaussian!=0.0 and gaussian_outwards" ∧ blurSkipCond = "sigma==0" ∧
     blurCall = "filters.gaussian(input_mask,sigma=sigma)" := by decide
+
+/-- **signature defaults**: an omitted `gaussian` means width 3 for `lowpass`, 2 for `highpass`; `bandpass` defaults to
+`lp_gaussian=3, hp_gaussian=2` (the harness omits the keyword in a share of the cases and judges against these) -/
+theorem defaults_documented :
+    defaultSigmas = [("lowpass.gaussian", "3"), ("highpass.gaussian", "2"), ("bandpass.lp_gaussian", "3"), ("bandpass.hp_gaussian", "2")] := by decide
+
+/-- parameter names, order and defaults of the filters and helpers (cutoff keywords default to `None`) -/
+theorem signatures_documented :
+    signatures = [("lowpass", "input_map,fourier_pixels=None,target_resolution=None,pixel_size=None,gaussian=3,output_name=None"), ("highpass", "input_map,fourier_pixels=None,target_resolution=None,pixel_size=None,gaussian=2,output_name=None"), ("bandpass", "input_map,lp_fourier_pixels=None,lp_target_resolution=None,hp_fourier_pixels=None,hp_target_resolution=None,pixel_size=None,lp_gaussian=3,hp_gaussian=2,output_name=None"), ("get_filter_radius", "edge_size,fourier_pixels,target_resolution,pixel_size"), ("resolution2pixels", "resolution,edge_size,pixel_size,print_out=True"), ("pixels2resolution", "fourier_pixels,edge_size,pixel_size,print_out=True"), ("spherical_mask", "mask_size,radius=None,center=None,gaussian=0.0,gaussian_outwards=True,output_name=None")] := by rfl
+
+/-- every control-flow path of the filters and their helpers — conditions, calls made for their effect, returned
+expression, local variables inlined: nothing but the documented pipeline runs (no cache, no shortcut, no in-place
+edit of an argument), including the `output_name` branches the correspondence run never takes -/
+theorem flow_documented :
+    flowPaths = [("lowpass", ["[output_nameisnotNone]write(np.real(fft.ifftn(fft.fftn(read(input_map))*fft.ifftshift(cryomask.spherical_mask(read(input_map).shape,get_filter_radius(read(input_map).shape[0],fourier_pixels=fourier_pixels,target_resolution=target_resolution,pixel_size=pixel_size),gaussian=gaussian,gaussian_outwards=False)))),output_name,data_type=np.single);return np.real(fft.ifftn(fft.fftn(read(input_map))*fft.ifftshift(cryomask.spherical_mask(read(input_map).shape,get_filter_radius(read(input_map).shape[0],fourier_pixels=fourier_pixels,target_resolution=target_resolution,pixel_size=pixel_size),gaussian=gaussian,gaussian_outwards=False))))", "[not(output_nameisnotNone)]return np.real(fft.ifftn(fft.fftn(read(input_map))*fft.ifftshift(cryomask.spherical_mask(read(input_map).shape,get_filter_radius(read(input_map).shape[0],fourier_pixels=fourier_pixels,target_resolution=target_resolution,pixel_size=pixel_size),gaussian=gaussian,gaussian_outwards=False))))"]),
+  ("highpass", ["[output_nameisnotNone]write(np.real(fft.ifftn(fft.fftn(read(input_map))*fft.ifftshift(np.ones(read(input_map).shape)-cryomask.spherical_mask(read(input_map).shape,get_filter_radius(read(input_map).shape[0],fourier_pixels=fourier_pixels,target_resolution=target_resolution,pixel_size=pixel_size),gaussian=gaussian,gaussian_outwards=False)))),output_name,data_type=np.single);return np.real(fft.ifftn(fft.fftn(read(input_map))*fft.ifftshift(np.ones(read(input_map).shape)-cryomask.spherical_mask(read(input_map).shape,get_filter_radius(read(input_map).shape[0],fourier_pixels=fourier_pixels,target_resolution=target_resolution,pixel_size=pixel_size),gaussian=gaussian,gaussian_outwards=False))))", "[not(output_nameisnotNone)]return np.real(fft.ifftn(fft.fftn(read(input_map))*fft.ifftshift(np.ones(read(input_map).shape)-cryomask.spherical_mask(read(input_map).shape,get_filter_radius(read(input_map).shape[0],fourier_pixels=fourier_pixels,target_resolution=target_resolution,pixel_size=pixel_size),gaussian=gaussian,gaussian_outwards=False))))"]),
+  ("bandpass", ["[output_nameisnotNone]write(cryomask.spherical_mask(read(input_map).shape,get_filter_radius(read(input_map).shape[0],fourier_pixels=lp_fourier_pixels,target_resolution=lp_target_resolution,pixel_size=pixel_size),gaussian=lp_gaussian,gaussian_outwards=False)-cryomask.spherical_mask(read(input_map).shape,get_filter_radius(read(input_map).shape[0],fourier_pixels=hp_fourier_pixels,target_resolution=hp_target_resolution,pixel_size=pixel_size),gaussian=hp_gaussian,gaussian_outwards=False),'band.em',data_type=np.single);write(np.real(fft.ifftn(fft.fftn(read(input_map))*fft.ifftshift(cryomask.spherical_mask(read(input_map).shape,get_filter_radius(read(input_map).shape[0],fourier_pixels=lp_fourier_pixels,target_resolution=lp_target_resolution,pixel_size=pixel_size),gaussian=lp_gaussian,gaussian_outwards=False)-cryomask.spherical_mask(read(input_map).shape,get_filter_radius(read(input_map).shape[0],fourier_pixels=hp_fourier_pixels,target_resolution=hp_target_resolution,pixel_size=pixel_size),gaussian=hp_gaussian,gaussian_outwards=False)))),output_name,data_type=np.single);return np.real(fft.ifftn(fft.fftn(read(input_map))*fft.ifftshift(cryomask.spherical_mask(read(input_map).shape,get_filter_radius(read(input_map).shape[0],fourier_pixels=lp_fourier_pixels,target_resolution=lp_target_resolution,pixel_size=pixel_size),gaussian=lp_gaussian,gaussian_outwards=False)-cryomask.spherical_mask(read(input_map).shape,get_filter_radius(read(input_map).shape[0],fourier_pixels=hp_fourier_pixels,target_resolution=hp_target_resolution,pixel_size=pixel_size),gaussian=hp_gaussian,gaussian_outwards=False))))", "[not(output_nameisnotNone)]write(cryomask.spherical_mask(read(input_map).shape,get_filter_radius(read(input_map).shape[0],fourier_pixels=lp_fourier_pixels,target_resolution=lp_target_resolution,pixel_size=pixel_size),gaussian=lp_gaussian,gaussian_outwards=False)-cryomask.spherical_mask(read(input_map).shape,get_filter_radius(read(input_map).shape[0],fourier_pixels=hp_fourier_pixels,target_resolution=hp_target_resolution,pixel_size=pixel_size),gaussian=hp_gaussian,gaussian_outwards=False),'band.em',data_type=np.single);return np.real(fft.ifftn(fft.fftn(read(input_map))*fft.ifftshift(cryomask.spherical_mask(read(input_map).shape,get_filter_radius(read(input_map).shape[0],fourier_pixels=lp_fourier_pixels,target_resolution=lp_target_resolution,pixel_size=pixel_size),gaussian=lp_gaussian,gaussian_outwards=False)-cryomask.spherical_mask(read(input_map).shape,get_filter_radius(read(input_map).shape[0],fourier_pixels=hp_fourier_pixels,target_resolution=hp_target_resolution,pixel_size=pixel_size),gaussian=hp_gaussian,gaussian_outwards=False))))"]),
+  ("get_filter_radius", ["[not(fourier_pixelsisnotNone)&not(target_resolutionisnotNoneandpixel_sizeisnotNone)]raise ValueError", "[fourier_pixelsisnotNone&pixel_sizeisnotNone]unused:pixels2resolution(fourier_pixels=fourier_pixels,edge_size=edge_size,pixel_size=pixel_size);return fourier_pixels", "[fourier_pixelsisnotNone&not(pixel_sizeisnotNone)]return fourier_pixels", "[not(fourier_pixelsisnotNone)&target_resolutionisnotNoneandpixel_sizeisnotNone]return resolution2pixels(target_resolution,edge_size=edge_size,pixel_size=pixel_size)"]),
+  ("resolution2pixels", ["[print_out]print(f'Thetargetresolutioncorrespondsto{round(edge_size*pixel_size/resolution)}pixels.');return round(edge_size*pixel_size/resolution)", "[not(print_out)]return round(edge_size*pixel_size/resolution)"]),
+  ("pixels2resolution", ["[print_out]print(f'Thetargetresolutionis{edge_size*pixel_size/fourier_pixels}Angstroms.');return edge_size*pixel_size/fourier_pixels", "[not(print_out)]return edge_size*pixel_size/fourier_pixels"]),
+  ("preprocess_params", ["[gaussian!=0.0andgaussian_outwards]return np.ceil(radius+gaussian*5.0).astype(int)", "[not(gaussian!=0.0andgaussian_outwards)]return radius"]),
+  ("postprocess", ["[]write_out(rotate(add_gaussian(input_mask,gaussian),angles),output_name);return rotate(add_gaussian(input_mask,gaussian),angles)"]),
+  ("add_gaussian", ["[sigma==0]return input_mask", "[not(sigma==0)]return filters.gaussian(input_mask,sigma=sigma)"]),
+  ("rotate", ["[anglesisNoneornotnp.any(angles)]return input_mask", "[not(anglesisNoneornotnp.any(angles))]return cryomap.rotate(input_mask,rotation_angles=angles)"]),
+  ("write_out", ["[output_nameisnotNone]cryomap.write(input_mask,output_name,data_type=np.single);return None", "[not(output_nameisnotNone)]return None"])] := by rfl
+
+/-- whole-body dumps of `spherical_mask`, `get_correct_format` and the array branch of `cryomap.read` (which copies
+the caller's array: the filters never alias their argument) -/
+theorem bodies_documented :
+    bodyDumps = [("spherical_mask", ["0:mask_size=get_correct_format(mask_size)", "0:center=get_correct_format(center,reference_size=mask_size)", "0:ifradiusisNone:", "1:radius=np.amin(mask_size)//2", "0:radius=preprocess_params(radius,gaussian,gaussian_outwards)", "0:L0,L1,L2=np.mgrid[0:mask_size[0]:1,0:mask_size[1]:1,0:mask_size[2]:1]", "0:L3=np.sqrt((L0-center[0])**2+(L1-center[1])**2+(L2-center[2])**2)", "0:L3[L3>radius]=0", "0:L3[L3>0]=1", "0:L3[center[0],center[1],center[2]]=1", "0:L3=postprocess(L3,gaussian,np.asarray([0,0,0]),output_name)", "0:returnL3"]),
+  ("get_correct_format", ["0:defL0(L1):", "1:ifisinstance(L1,(tuple,list,np.ndarray)):", "2:iflen(L1)==3:", "3:returnnp.asarray(L1).astype(int)", "2:eliflen(L1)==1:", "3:returnnp.full((3,),L1).astype(int)", "2:else:", "3:raiseValueError('Thesizehavetobeasinglenumberorhavetohavelengthof3!')", "1:elifisinstance(L1,(float,int)):", "2:returnnp.full((3,),L1).astype(int)", "0:ifinput_valueisnotNone:", "1:L2=L0(input_value)", "0:elifreference_sizeisnotNone:", "1:L3=L0(reference_size)", "1:L2=L3//2", "0:else:", "1:raiseValueError('Eitherinput_sizeorreferene_sizehavetobespecified')", "0:returnL2"]),
+  ("read[ndarray]", ["[not(isinstance(input_map,str))&isinstance(input_map,np.ndarray)&data_typeisnotNone]return np.array(np.array(input_map),copy=True).astype(data_type)", "[not(isinstance(input_map,str))&isinstance(input_map,np.ndarray)&not(data_typeisnotNone)]return np.array(np.array(input_map),copy=True)"])] := by rfl
 
 /-! ### the integer frequency of a DFT bin -/
 
@@ -392,6 +434,16 @@ theorem band_gain_range_nested (ker : Option (List (Int × K))) (t : Nat) (hk : 
   rw [band_gain_difference]
   constructor <;> linarith [a.1, a.2, b.1, b.2]
 
+/-- for ANY two edges and ANY two cutoffs the band-pass gain lies in [-1,1] (difference of two gains in [0,1]); the
+lower bound 0 of the statement needs the nesting hypotheses of `band_gain_range_nested`: see the two witnesses below -/
+theorem band_gain_bounds (kl kh : Option (List (Int × K))) (t t' : Nat) (hl : ∀ k' ∈ kl, ValidKernel t k') (hh : ∀ k' ∈ kh, ValidKernel t' k')
+    (d : Dims) (hd : 0 < d.nx ∧ 0 < d.ny ∧ 0 < d.nz) (lp hp : Int) (j k l : Int) :
+    -1 ≤ bandGainFn kl kh d lp hp j k l ∧ bandGainFn kl kh d lp hp j k l ≤ 1 := by
+  have a := low_gain_range kl t hl d hd lp j k l
+  have b := low_gain_range kh t' hh d hd hp j k l
+  rw [band_gain_difference]
+  constructor <;> linarith [a.1, a.2, b.1, b.2]
+
 /-- the effective (even-part) gain of any gain with values in [0,1] stays in [0,1] -/
 theorem effective_gain_range (d : Dims) (g : Vol K) (h : ∀ j k l, 0 ≤ g j k l ∧ g j k l ≤ 1) (j k l : Int) :
     0 ≤ effGain d g j k l ∧ effGain d g j k l ≤ 1 := by
@@ -418,9 +470,10 @@ end gains
 /-- What the statement says literally about the Gaussian edge and what is NOT proved here: with the
 truncated Gaussian of width `σ` the gain is 1 for radius ≤ cutoff−4σ−1, 0 for radius ≥ cutoff+4σ+1 and
 non-increasing in the radius in between. In exact arithmetic the first two hold only up to the weight of
-the kernel's corner offsets (`soft_gain_tail` gives the exact expression; the harness checks them with
-1e-4) and the third is a property of the Gaussian's shape that the harness validates along axis and
-diagonal rays. Kept as a statement, no proof claimed. -/
+the kernel's corner offsets (`soft_gain_inside/outside` give the exact bound `tail3`, which the harness uses) and
+the third is proved for the effective gain on every ray whose moving axes keep the ball off the faces of the mask
+box (`soft_edge_monotone_rays_partial`); where the ball touches a face it is not a theorem (the executed model
+rises by ~4e-8 on boxes like 10×25×10, cutoff 12). Kept as a statement, no proof claimed. -/
 def SoftEdgeFull {K : Type} [Field K] [LinearOrder K] [IsStrictOrderedRing K]
     (ker : List (Int × K)) (d : Dims) (r : Int) (fourSigmaPlusOne : Int) : Prop :=
   (∀ j k l ρ : Int, 0 ≤ ρ → freqRadius2 d j k l ≤ ρ * ρ → ρ ≤ r - fourSigmaPlusOne → lowGainFn (some ker) d r j k l = 1) ∧
@@ -571,6 +624,43 @@ theorem soft_edge_monotone_axes_partial (ker : List (Int × K)) (hk : UnimodalKe
     rw [fq d.nz hd.2.2 m hm (by omega), fq d.nz hd.2.2 (m + 1) (by omega) hlt] at this
     exact this hm rfl
 
+/-- **non-increasing along every step away from the centre planes** — axis-parallel lines, face diagonals and
+space diagonals alike: if every index either keeps its frequency or, on an axis whose ball stays off both faces of
+the mask box (`monoAxisOk`), moves one bin away from frequency 0 (`AwayStep`), the gain does not rise. A diagonal
+step is a chain of axis-parallel steps, each covered by `soft_gain_mono_axis_*` at the position reached so far. -/
+theorem soft_gain_mono_step (ker : List (Int × K)) (hk : UnimodalKernel ker) (d : Dims)
+    (hd : 0 < d.nx ∧ 0 < d.ny ∧ 0 < d.nz) (r : Int) (hr : 0 ≤ r) (j k l j' k' l' : Int)
+    (hx : AwayStep d.nx r j j') (hy : AwayStep d.ny r k k') (hz : AwayStep d.nz r l l') :
+    lowGainFn (some ker) d r j' k' l' ≤ lowGainFn (some ker) d r j k l :=
+  gain_step_xyz ker hk d hd r hr j k l j' k' l' hx hy hz
+
+/-- **the same for the EFFECTIVE gain** `(g(k) + g(−k))/2` — what `np.real` leaves of the filter and what the
+harness measures as `fft(out)/fft(in)`: non-increasing along every step whose moving indices do not land on the
+Nyquist bin of an even axis (`EffStep`; that bin has no mirror image). This is the statement the judge's clause
+`soft-monotone` evaluates on the real output, on every pair of bins it applies to. -/
+theorem soft_eff_gain_mono_step (ker : List (Int × K)) (hk : UnimodalKernel ker) (d : Dims)
+    (hd : 0 < d.nx ∧ 0 < d.ny ∧ 0 < d.nz) (r : Int) (hr : 0 ≤ r) (j k l j' k' l' : Int)
+    (hx : EffStep d.nx r j j') (hy : EffStep d.ny r k k') (hz : EffStep d.nz r l l') :
+    effGain d (lowGainFn (some ker) d r) j' k' l' ≤ effGain d (lowGainFn (some ker) d r) j k l := by
+  have a := gain_step_xyz ker hk d hd r hr j k l j' k' l' (effStep_away _ _ _ _ hx) (effStep_away _ _ _ _ hy) (effStep_away _ _ _ _ hz)
+  have b := gain_step_xyz ker hk d hd r hr (negIdx d.nx j) (negIdx d.ny k) (negIdx d.nz l) (negIdx d.nx j') (negIdx d.ny k') (negIdx d.nz l')
+    (effStep_mirror _ hd.1 _ _ _ hx) (effStep_mirror _ hd.2.1 _ _ _ hy) (effStep_mirror _ hd.2.2 _ _ _ hz)
+  simp only [effGain]
+  linarith
+
+/-- the third clause of `SoftEdgeFull` — along all 26 axis/diagonal rays `m·s ↦ (m+1)·s`, `s ∈ {-1,0,1}³` — in the
+form that IS proved: for the effective gain, on every ray whose moving axes keep the ball off both faces of the
+mask box, up to the last frequency that has a mirror bin -/
+theorem soft_edge_monotone_rays_partial (ker : List (Int × K)) (hk : UnimodalKernel ker) (d : Dims)
+    (hd : 0 < d.nx ∧ 0 < d.ny ∧ 0 < d.nz) (r : Int) (hr : 0 ≤ r) (sx sy sz m : Int) (hm : 0 ≤ m)
+    (hx : sx = 0 ∨ ((sx = 1 ∨ sx = -1) ∧ monoAxisOk d.nx r = true ∧ m + 1 < (d.nx : Int) - centre d.nx))
+    (hy : sy = 0 ∨ ((sy = 1 ∨ sy = -1) ∧ monoAxisOk d.ny r = true ∧ m + 1 < (d.ny : Int) - centre d.ny))
+    (hz : sz = 0 ∨ ((sz = 1 ∨ sz = -1) ∧ monoAxisOk d.nz r = true ∧ m + 1 < (d.nz : Int) - centre d.nz)) :
+    effGain d (lowGainFn (some ker) d r) ((m + 1) * sx) ((m + 1) * sy) ((m + 1) * sz)
+      ≤ effGain d (lowGainFn (some ker) d r) (m * sx) (m * sy) (m * sz) :=
+  soft_eff_gain_mono_step ker hk d hd r hr _ _ _ _ _ _
+    (effStep_ray _ hd.1 r sx m hm hx) (effStep_ray _ hd.2.1 r sy m hm hy) (effStep_ray _ hd.2.2 r sz m hm hz)
+
 /-- the kernel the driver builds is symmetric and unimodal for every positive, monotone `exp` (with the
 integer cast as `ofI`), so the monotonicity theorems apply to the executed model -/
 theorem model_kernel_unimodal [BEq K] (expf : K → K) (hexp : ∀ x, 0 < expf x) (hmono : ∀ x y, x ≤ y → expf x ≤ expf y)
@@ -593,6 +683,18 @@ theorem soft_edge_full_false_below_reach :
   have h1 := h.1 0 0 0 0 (le_refl _) (by decide) (by decide)
   revert h1
   decide +kernel
+
+/-- **known finding C12-K1, witness.** With DIFFERENT edge widths a properly nested band (`hp = 2 < lp = 3`) has a
+negative gain: outer edge `(1/8, 1/4, 1/4, 1/4, 1/8)`, inner edge `(1/16, 7/8, 1/16)`, box 8³, bin `(1,0,0)`:
+the softer outer mask has dropped to 111/128 where the sharper inner one is still 1009/1024. "Gain in [0,1]" and
+"band-pass = difference of its two low-passes" cannot both hold here; the model (like the code) keeps the second. -/
+theorem band_gain_negative_unequal_widths :
+    bandGainFn (some ([(-2, 1/8), (-1, 1/4), (0, 1/4), (1, 1/4), (2, 1/8)] : List (Int × Rat)))
+      (some [(-1, 1/16), (0, 7/8), (1, 1/16)]) ⟨8, 8, 8⟩ 3 2 1 0 0 = -121/1024 := by decide +kernel
+
+/-- … and so has an inverted band (`hp > lp`) even with equal (here: hard) edges: the shell between the cutoffs gets gain −1 -/
+theorem band_gain_negative_inverted :
+    bandGainFn (none : Option (List (Int × Rat))) none ⟨8, 8, 8⟩ 1 2 2 0 0 = -1 := by decide +kernel
 
 /-! ### the executed arrays hold these gains -/
 section grids
@@ -857,6 +959,12 @@ example : tail3 ([(-1, 1/4), (0, 1/2), (1, 1/4)] : List (Int × Rat)) 1 = 1/2
 example : centre 16 + 5 + 1 < (16 : Int) ∧ (5 : Int) < centre 16 ∧ freq 16 3 = freq 16 2 + 1 ∧ 0 ≤ freq 16 2
     ∧ freq 16 13 = freq 16 14 - 1 ∧ freq 16 14 ≤ 0 := by decide
 /-- `Root`: −1 is a primitive 2nd root of unity in ℚ, so `dft_is_transform` is not vacuous even over ℚ (boxes 2×2×2, 1×2×1 …) -/
+-- hypotheses of `soft_gain_mono_step` / `soft_eff_gain_mono_step` / `soft_edge_monotone_rays_partial`: box 16³, cutoff 5 keeps the ball off
+-- both faces (8+5+1 < 16, 5 < 8); bin 2 ↦ 3 moves away from frequency 0, bin 14 ↦ 13 is its mirror (−2 ↦ −3); cutoff 7 touches the upper face
+example : monoAxisOk 16 5 = true ∧ monoAxisOk 16 7 = false ∧ monoAxisOk 8 12 = false := by decide
+example : EffStep 16 5 2 3 ∧ AwayStep 16 5 14 13 ∧ EffStep 16 5 4 4 := by
+  refine ⟨Or.inr ⟨by decide, by decide, Or.inl ⟨by decide, by decide⟩⟩, Or.inr ⟨by decide, Or.inr ⟨by decide, by decide⟩⟩, Or.inl rfl⟩
+example : ((1 : Int) = 1 ∨ (1 : Int) = -1) ∧ monoAxisOk 16 5 = true ∧ (6 : Int) + 1 < (16 : Int) - centre 16 := by decide
 example : Root 2 (-1 : Rat) := ⟨IsPrimitiveRoot.neg_one 0 (by decide), by decide, by norm_num⟩
 /-- the 2-point DFT of (x₀,x₁) is (x₀+x₁, x₀−x₁), outside 0…1 nothing moves -/
 example : dft1 2 (fun m => (-1 : Rat) ^ m) (fun u => if u = 0 then 3 else if u = 1 then 5 else 7) 1 = -2
